@@ -221,7 +221,8 @@ class SecondsTimedeltaProvider(MorphingProvider):
             if type(data) not in ok_types:
                 raise TypeLoadError(Union[int, float, Decimal], data)
             try:
-                return timedelta(seconds=int(data), microseconds=int(data % 1 * 10 ** 6))
+                # `//` and `%` round consistently with each other for int, float and Decimal
+                return timedelta(seconds=int(data // 1), microseconds=int(data % 1 * 10 ** 6))
             except (ValueError, OverflowError, ArithmeticError) as e:
                 raise ValueLoadError(str(e), data)
 
